@@ -84,22 +84,40 @@ def typedOf (c : TContent) (k : Nat) : Option TypedAttr :=
   | some (.typed _ a) => some a
   | _ => none
 
-/-- family, ADD-PATH setting of the session for it, and NLRI of MP_UNREACH_NLRI -/
+/-- NLRI type and NLRI of the first MP_UNREACH_NLRI: for one of the 13 families
+the family with the session's ADD-PATH setting for it and the withdrawn NLRI;
+for an unsupported (AFI, SAFI) the type `Unsupported(afi, safi)` and NO item,
+whatever octets the attribute holds (`NlriEnumIter::next` has no rule to read
+them by) -/
 def unreachOf (cfg : Cfg) (c : TContent) : Option (NlriTy × List AnyNlri) :=
   match c.find 15 with
   | some (.unreach _ f nlri) => some (.known f (cfg.rx (famCode f)), anyNlris f (cfg.rx (famCode f)) nlri)
+  | some (.unreachU _ k _) => some (.unsupported k.1 k.2, [])
   | _ => none
 
+/-- the same for the first MP_REACH_NLRI -/
 def reachOf (cfg : Cfg) (c : TContent) : Option (NlriTy × List AnyNlri) :=
   match c.find 14 with
-  | some (.reach _ f _ nlri) => some (.known f (cfg.rx (famCode f)), anyNlris f (cfg.rx (famCode f)) nlri)
+  | some (.reach _ f _ _ nlri) => some (.known f (cfg.rx (famCode f)), anyNlris f (cfg.rx (famCode f)) nlri)
+  | some (.reachU _ k _ _ _) => some (.unsupported k.1 k.2, [])
   | _ => none
 
-/-- family and next hop of MP_REACH_NLRI -/
-def reachNh (c : TContent) : Option (Fam × Outcome NextHop) :=
+/-- (AFI, SAFI) and next hop of MP_REACH_NLRI; `NextHop::parse` has no rule for
+an unsupported (AFI, SAFI): `mp_next_hop()` is an `Err` there, whatever the
+next-hop field holds.  The reserved octet plays no role. -/
+def reachNh (c : TContent) : Option ((Nat × Nat) × Outcome NextHop) :=
   match c.find 14 with
-  | some (.reach _ f nh _) => some (f, nhOf f nh)
+  | some (.reach _ f nh _ _) => some (famCode f, nhOf f nh)
+  | some (.reachU _ k _ _ _) => some (k, .err)
   | _ => none
+
+/-- the first MP_UNREACH_NLRI has no octet after AFI/SAFI (RFC 4724 2: the
+End-of-RIB marker's shape) – read off the content, for any family -/
+def unreachEmpty (c : TContent) : Bool :=
+  match c.find 15 with
+  | some (.unreach _ _ nlri) => nlri.isEmpty
+  | some (.unreachU _ _ body) => body.isEmpty
+  | _ => false
 
 /-- the records of the first community attribute of type `k` -/
 def recsOf (c : TContent) (k : Nat) : Option (List Bytes) :=
@@ -128,18 +146,18 @@ def typedSpec (conv : List AnyNlri) (mp : Option (NlriTy × List AnyNlri)) (f : 
 
 /-- `find_next_hop(k)`: the MP next hop of family `k`; for IPv4 unicast the
 conventional NEXT_HOP when the message has no MP_REACH_NLRI of that family -/
-def findNextHopSpec (reach : Option (Fam × Outcome NextHop)) (conv : Option NextHop) (k : Nat × Nat) :
+def findNextHopSpec (reach : Option ((Nat × Nat) × Outcome NextHop)) (conv : Option NextHop) (k : Nat × Nat) :
     Outcome NextHop :=
   let convOr : Outcome NextHop := match conv with
     | some nh => .ok nh
     | none => .err
   if k = (1, 1) then
     match reach with
-    | some (f, .ok nh) => if famCode f = (1, 1) then .ok nh else convOr
+    | some (f, .ok nh) => if f = (1, 1) then .ok nh else convOr
     | _ => convOr
   else
     match reach with
-    | some (f, .ok nh) => if famCode f = k then .ok nh else .err
+    | some (f, .ok nh) => if f = k then .ok nh else .err
     | _ => .err
 
 /-- **What a faithful decoder reports** about the encoding of content `c`
@@ -183,8 +201,9 @@ def expected (cfg : Cfg) (c : TContent) : Observation :=
       if c.wd = [] ∧ c.attrs = [] ∧ c.ann = [] then .ok (some (1, 1))
       else
         match mw with
-        | some (ty, []) => if c.wd = [] ∧ c.ann = [] ∧ c.find 14 = none then .ok (some ty.afiSafi) else .ok none
-        | _ => .ok none
+        | some (ty, _) =>
+          if c.unreachEmpty = true ∧ c.wd = [] ∧ c.ann = [] ∧ c.find 14 = none then .ok (some ty.afiSafi) else .ok none
+        | none => .ok none
     origin := .ok (match c.typedOf 1 with | some (.origin v) => some v | _ => none)
     aspath := .ok ((c.find 2).bind fun a => (a.hopsT cfg).map fun h => (a.valueD cfg, h))
     as4path := .ok ((c.find 17).bind fun a => (a.hopsT cfg).map fun h => (a.valueD cfg, h))
@@ -217,8 +236,10 @@ def AttrC.kindOk (cfg : Cfg) : AttrC → Prop
   | .typed _ a => WfAttrW a = true ∧ (cfg.four = false → narrowOk a = true)
   | .path _ as4 ss => ∀ s ∈ ss, s.wireOk (as4 || cfg.four) = true
   | .raw _ tc _ => canonicalFlags tc.toNat = none ∧ tc.toNat ≠ 14 ∧ tc.toNat ≠ 15
-  | .reach _ f nh nlri => NlrisWf f (cfg.rx (famCode f)) nlri ∧ nh.length < 256 ∧ (nhSpec f nh).isSome = true
+  | .reach _ f nh _ nlri => NlrisWf f (cfg.rx (famCode f)) nlri ∧ nh.length < 256 ∧ (nhSpec f nh).isSome = true
   | .unreach _ f nlri => NlrisWf f (cfg.rx (famCode f)) nlri
+  | .reachU _ k nh _ _ => famOf k = none ∧ k.1 < 65536 ∧ k.2 < 256 ∧ nh.length < 256
+  | .unreachU _ k _ => famOf k = none ∧ k.1 < 65536 ∧ k.2 < 256
 
 /-- a well-formed attribute: a value of its kind (C04's `WfAttrW`, C13's
 `Seg.wireOk`, C05's `wf` for every NLRI) whose encoding fits the length field
